@@ -17,12 +17,13 @@ Theorem wf_file_meaning bs : wf_file bs = true ->
        after it up to the first NUL *)
     has_prefix bs c_hdrPrefix = true /\ get32 bs 28 = hdr /\ hdr mod 32 = 0 /\ (32 <= hdr /\ hdr <= 16384) /\
     meta = cut_nul (slice bs 32 (hdr - 32)) /\
-    (* size and allocation limit *)
+    (* size and allocation limit: the offset of the end of the records, not
+       necessarily a multiple of 32 *)
     len bs mod 16384 = 0 /\ 16384 <= len bs /\
-    limit = get32 bs hdr /\ limit <= len bs /\ limit mod 32 = 0 /\ (limit = 0 \/ hdr + 2052 <= limit) /\
+    limit = get32 bs hdr /\ limit <= len bs /\ (limit = 0 \/ hdr + 2052 <= limit) /\
     (* every linked record *)
     (forall r, In r rs ->
-       r_off r mod 32 = 0 /\ hdr + 4 + 4 * 512 <= r_off r /\ r_end r <= limit /\
+       r_off r mod 32 = 0 /\ hdr + 4 + 4 * 512 <= r_off r /\ r_off r + 16 + len (r_name r) <= limit /\
        1 <= len (r_name r) <= 4096 /\
        r_off r mod 16384 + rec_size (len (r_name r)) <= 16384 - 32 /\
        r_name r = slice bs (r_off r + 16) (len (r_name r)) /\ r_val r = get64 bs (r_off r) /\
@@ -40,7 +41,7 @@ Proof.
   exists hdr, meta, kv, limit, (concat tbl).
   split; [exact Eh|]. split; [exact Ek|]. split; [reflexivity|]. split; [exact Hpp|].
   split; [now symmetry|]. split; [exact Hmod|]. split; [exact Hb|]. split; [exact Em|].
-  split; [exact H1|]. split; [exact H2|]. split; [exact El|]. split; [exact H3|]. split; [exact H4|].
+  split; [exact H1|]. split; [exact H2|]. split; [exact El|]. split; [exact H3|].
   split; [rewrite first_off_val in H5; exact H5|]. split.
   - intros r Hr. pose proof (wf_record_in _ _ _ _ _ Ht Hr) as [Hri _].
     pose proof (rec_in_facts _ _ _ _ Hri H3) as (F1 & F2 & F3 & F4 & F5 & _ & F7 & F8).
